@@ -406,6 +406,11 @@ def compare(kw, real, ref_items, hz):
         if g != r[:len(g)]:
             return ('wrong-instant-before-valueerror', 'got %r, reference %r' % (g[:6], r[:6]))
         if len(r) > len(g):
+            missing = r[len(g):]
+            if 'out of range' in str(real.get('error', '')) and all(x.year == 9999 and x.month == 12 and x.day >= 25 for x in missing):
+                # the period being built reaches into year 10000: its days are not representable, and what happens to the
+                # last few days of 9999 in that period is outside the property (no instant past datetime.max exists)
+                return None
             return ('valueerror-hides-occurrences', '%s (%s) but the rule has occurrences, e.g. %r' % (st, real['error'], r[len(g):len(g) + 3]))
         return None
     if st == 'cut':
